@@ -805,7 +805,10 @@ fn c02_data<const L: usize, const EXP: bool>(v6: bool) {
     let b_b: [u8; 2] = kani::any();
     let mut salt_b = SALT16;
     salt_b[3] = kani::any();
-    let shv: [u8; 2] = kani::any();
+    // the signed-hash-value octets presented: either the true digest prefix or arbitrary octets (a flag rather
+    // than a free pair, so that a counterexample of the completeness direction replays with the real hash)
+    let shv_true: bool = kani::any();
+    let shv_free: [u8; 2] = kani::any();
     kani::assume(tt_ok::<EXP>(tt_b));
     let (hashed, _wire_b) = hashed_area::<EXP>(t_b, tt_b, c_b, b_b[0], b_b[1]);
     mk_cfg!(cfg, harr, ustore, v6, SignatureType::Binary, pk_b, salt_b, hashed);
@@ -814,11 +817,12 @@ fn c02_data<const L: usize, const EXP: bool>(v6: bool) {
         None => assert!(false),
         Some(w) => {
             expect_digest(&w);
+            let shv = if shv_true { [w[0], w[1]] } else { shv_free };
             let vs = mk_sig(cfg, shv);
             let ok = is_okf(vs.verify(&*key, &doc_b[..]));
             kani::cover!(ok, "an untampered signature verifies");
             let all_equal = eq_bytes(&doc_a, &doc_b) && typ_a == 0 && pk_a == pk_b && t_a == t_b && tt_a == tt_b && c_a == c_b
-                && b_a[0] == b_b[0] && b_a[1] == b_b[1] && (!v6 || salt_a[3] == salt_b[3]) && shv[0] == w[0] && shv[1] == w[1];
+                && b_a[0] == b_b[0] && b_a[1] == b_b[1] && (!v6 || salt_a[3] == salt_b[3]) && shv_true;
             if all_equal {
                 assert!(ok, "C06/C02: an untampered data signature (every field as signed) is rejected by Signature::verify");
             }
